@@ -111,11 +111,14 @@ type runner struct {
 	shut        bool
 	lostOnce    bool
 	idleDrain   int
+	resetAt     bool // style: exercise RESET_STREAM_AT (boundaries, then CancelWrite, then keep sending)
+	resetDrain  int
 }
 
 // NewRunner: pair=false is the sender-only driver, pair=true adds the receive stream.
 func NewRunner(t *testing.T, r *vh.Rand, pair bool) vh.Runner {
 	rn := &runner{t: t, pair: pair, plan: 8 + r.Intn(110), noReset: r.Chance(60), drain: r.Chance(75), delivered: map[int]bool{}}
+	rn.resetAt = r.Chance(30)
 	if pair {
 		rn.noReset = r.Chance(80)
 		rn.drain = r.Chance(85)
@@ -553,6 +556,10 @@ func (rn *runner) GenOp(r *vh.Rand, i int) string {
 			rn.idleDrain++
 			return fmt.Sprintf("pop %d %d 0", r.Range(40, 1452), 1<<20)
 		}
+		if hasData && st.Reset && !st.Shutdown && rn.supports && rn.resetDrain < 25 {
+			rn.resetDrain++ // after RESET_STREAM_AT the reliable part is still (re)transmitted
+			return fmt.Sprintf("pop %d %d 0", r.Range(40, 1452), 1<<20)
+		}
 		if len(open) > 0 {
 			k := open[r.Intn(len(open))]
 			if !rn.lostOnce && r.Chance(35) {
@@ -578,6 +585,12 @@ func (rn *runner) GenOp(r *vh.Rand, i int) string {
 	wBoundary := 0
 	if rn.supports {
 		wBoundary = 4
+		if rn.resetAt {
+			wBoundary = 9
+			if !rn.reset && i > rn.plan/3 {
+				wReset = 6
+			}
+		}
 	}
 	switch r.Pick(30, 30, 12, 10, 2, wReset, wBoundary, 3, 2) {
 	case 0:
@@ -604,6 +617,10 @@ func (rn *runner) GenOp(r *vh.Rand, i int) string {
 		rn.closed = true
 		return "close"
 	case 5:
+		if rn.supports && rn.resetAt && r.Chance(85) {
+			rn.reset = true
+			return fmt.Sprintf("cancel %d", r.Intn(1000))
+		}
 		switch r.Pick(50, 35, 15) {
 		case 0:
 			rn.reset = true
